@@ -19,7 +19,12 @@
 #endif
 #define MAXIT (3 * M + 1)
 
-static char s_path[M][PL + 1], s_name[M][2], s_target[M][TL + 1];
+static char s_path0[PL + 1], s_path1[PL + 1], s_path2[PL + 1], s_path3[PL + 1];
+static char s_target0[TL + 1], s_target1[TL + 1], s_target2[TL + 1], s_target3[TL + 1];
+static char s_name0[2], s_name1[2], s_name2[2], s_name3[2];
+static char *const s_path[4] = { s_path0, s_path1, s_path2, s_path3 };
+static char *const s_target[4] = { s_target0, s_target1, s_target2, s_target3 };
+static char *const s_name[4] = { s_name0, s_name1, s_name2, s_name3 };
 
 static int ref_dangerous(const char *t)
 {
@@ -61,8 +66,8 @@ FILE *lha_arch_fopen(char *p, int u, int g, int perms)
 {
 	int i = cur_idx(p), ok = arch_result();
 	ordinary_op();
-	if (i >= 0 && hdrs[i].symlink_target != NULL) {
-		CHECK(ref_dangerous(hdrs[i].symlink_target), "C06: only dangerous links are replaced by a placeholder file");
+	if (i >= 0 && rd.curr_file->symlink_target != NULL) {
+		CHECK(ref_dangerous(rd.curr_file->symlink_target), "C06: only dangerous links are replaced by a placeholder file");
 		CHECK(rd.curr_file_type == CURR_FILE_NORMAL, "C10: placeholders are made when the member is met in the input");
 		CHECK(u == -1 && g == -1 && (perms & 077) == 0, "C10: placeholder is owner-only");
 		if (ok) placeholder[i] = 1;
@@ -74,14 +79,14 @@ int lha_arch_symlink(char *p, char *target)
 {
 	int i = cur_idx(p), ok = arch_result();
 	if (i < 0) return 0;
-	CHECK(target == hdrs[i].symlink_target && target != NULL, "C06: link is created with its recorded target");
+	CHECK(target == rd.curr_file->symlink_target && target != NULL, "C06: link is created with its recorded target");
 	if (ref_dangerous(target)) {
 		CHECK(env_exhausted(), "C10: dangerous symlink created only after every member of the input was processed");
 		CHECK(rd.dir_stack == NULL, "C10: dangerous symlink created only after all directory metadata was applied");
 		CHECK(rd.curr_file_type == CURR_FILE_DEFERRED_SYMLINK, "C10: dangerous symlinks are created in the deferred phase");
 		CHECK(placeholder[i] && !link_made[i], "C10: it replaces its own placeholder, once");
-		CHECK(ref_plen(&hdrs[i]) <= last_dangerous_len, "C10: deferred links are created longest path first");
-		last_dangerous_len = ref_plen(&hdrs[i]);
+		CHECK(ref_plen(rd.curr_file) <= last_dangerous_len, "C10: deferred links are created longest path first");
+		last_dangerous_len = ref_plen(rd.curr_file);
 		dangerous_made = 1; ++n_dangerous_made; link_made[i] = 1;
 	} else {
 		ordinary_op();
@@ -107,13 +112,12 @@ void harness(void)
 		for (j = 0; j <= TL; ++j) s_target[i][j] = (char) htarget[i * (TL + 1) + j];
 		ASSUME(s_path[i][PL] == 0 && s_target[i][TL] == 0);
 		s_name[i][0] = (char) hname[i]; s_name[i][1] = 0;
-		memset(&hdrs[i], 0, sizeof(hdrs[i]));
-		hdrs[i].path = s_path[i];
-		hdrs[i].filename = (hasname[i] & 1) ? s_name[i] : NULL;
+		hdrs[i]->path = s_path[i];
+		hdrs[i]->filename = (hasname[i] & 1) ? s_name[i] : NULL;
 		ASSUME(kind[i] <= 2);        /* 0 directory, 1 file, 2 symlink */
-		memcpy(hdrs[i].compress_method, kind[i] == 1 ? "-lh5-" : "-lhd-", 6);
-		hdrs[i].symlink_target = kind[i] == 2 ? s_target[i] : NULL;
-		hdrs[i].extra_flags = hextra[i]; hdrs[i].timestamp = hts[i]; hdrs[i].unix_perms = hextra[i] >> 8;
+		memcpy(hdrs[i]->compress_method, kind[i] == 1 ? "-lh5-" : "-lhd-", 6);
+		hdrs[i]->symlink_target = kind[i] == 2 ? s_target[i] : NULL;
+		hdrs[i]->extra_flags = hextra[i]; hdrs[i]->timestamp = hts[i]; hdrs[i]->unix_perms = hextra[i] >> 8;
 		env_dec_ok[i] = v_dec[i]; env_rd_len[i] = v_dec[i] >> 1; env_dec_len[i] = 0; env_dec_crc[i] = 0;
 	}
 	copy_bytes(arch_ok, v_arch, MAXIT * 4);
@@ -137,8 +141,12 @@ void harness(void)
 		CHECK(placeholder[i] == link_made[i], "C10: every placeholder is replaced by its link before end of file, and only placeholders are");
 		n_placeholders += placeholder[i];
 	}
-	if (n_placeholders == 2 && ref_plen(&hdrs[0]) < ref_plen(&hdrs[1]) && placeholder[0] && placeholder[1]) WITNESS("two deferred links, created in the opposite of archive order");
-	if (M >= 3 && n_placeholders == 1 && kind[0] == 0 && kind[1] == 2 && kind[2] == 1 && policy != 0 && !(skip[0] & 1) && !(skip[2] & 1)) WITNESS("directory, dangerous link, file");
+	if (n_placeholders == 2 && ref_plen(hdrs[0]) < ref_plen(hdrs[1]) && placeholder[0] && placeholder[1]) WITNESS("two deferred links, created in the opposite of archive order");
+#if M >= 3
+	if (n_placeholders == 1 && kind[0] == 0 && kind[1] == 2 && kind[2] == 1 && policy != 0 && !(skip[0] & 1) && !(skip[2] & 1)) WITNESS("directory, dangerous link, file");
+#else
+	if (n_placeholders == 1 && kind[0] == 0 && kind[1] == 2 && policy != 0 && !(skip[0] & 1)) WITNESS("directory, dangerous link");
+#endif
 	if (n_placeholders == 0 && kind[0] == 2 && !(skip[0] & 1) && s_target[0][0] == '.' && s_target[0][1] == '.' && s_target[0][2] == '.') WITNESS("safe link '...' made at once");
 	WITNESS("end");
 }
